@@ -1272,8 +1272,10 @@ class TorProcessProtocol(protocol.ProcessProtocol):
         # reset and try again at the next output (see this class'
         # tor_connection_failed)
         txtorlog.msg(data)
+        # the line we're looking for may arrive split across reads
+        self.collected_stdout.write(data.decode('ascii', 'replace'))
         if not self.attempted_connect and self.connection_creator \
-                and b'Opening Control listener' in data:
+                and 'Opening Control listener' in self.collected_stdout.getvalue():
             self.attempted_connect = True
             # hmmm, we don't "do" anything with this Deferred?
             # (should it be connected to the when_connected
